@@ -676,6 +676,14 @@ impl Expression {
                         'f' => '\x0C',
                         'v' => '\x0B',
                         '0' => '\0',
+                        // a backslash before a line terminator continues the line
+                        '\n' | '\u{2028}' | '\u{2029}' => continue,
+                        '\r' => {
+                            if ps.peek::<0>() == Some('\n') {
+                                ps.next();
+                            }
+                            continue;
+                        }
                         'x' | 'u' => {
                             let range = if next == 'x' { 0..2 } else { 0..4 };
                             let pos = ps.position();
